@@ -151,6 +151,18 @@ func (c *Ctx) LibDone() {
 	}
 }
 
+// Abort reports a violation after which this worker process cannot be used any more (e.g. a lock inside the library is
+// held forever): the process exits at once with a status the parent turns into a violation of the journalled case.
+func (c *Ctx) Abort(msg string) {
+	if c.w == nil {
+		fmt.Printf("VIOLATED (process must stop): %s\n", msg)
+		c.agg.TotalViol++
+		return
+	}
+	fmt.Fprintf(os.Stderr, "ABORT %s\n", msg)
+	os.Exit(6)
+}
+
 // Eval counts one evaluation (one execution of the library judged by the oracle)
 func (c *Ctx) Eval() { c.agg.Evals++ }
 
